@@ -414,15 +414,33 @@ func TestPropRule(t *testing.T) {
 		fail := func(msg string) {
 			t.Fatalf("%s\nrule: %s\nbatches: %v\npredicted: %v\nwritten:   %v", msg, descRule(cfg), hist, predicted, got)
 		}
-		for i := 0; i < len(gc) || i < len(pc); i++ {
-			if i >= len(gc) {
-				fail(fmt.Sprintf("write %d missing: expected %v", i, pc[i]))
+		// per written node the sequence of writes must be exactly the predicted one (the
+		// last write wins there); the order between different nodes is not prescribed
+		byNode := func(ws []write) map[string][]write {
+			m := map[string][]write{}
+			for _, w := range ws {
+				m[w.Node] = append(m[w.Node], w)
 			}
-			if i >= len(pc) {
-				fail(fmt.Sprintf("surplus write %v", gc[i]))
+			return m
+		}
+		gn, pn := byNode(gc), byNode(pc)
+		for node, pw := range pn {
+			gw := gn[node]
+			for i := 0; i < len(gw) || i < len(pw); i++ {
+				if i >= len(gw) {
+					fail(fmt.Sprintf("write %d to %s missing: expected %v", i, node, pw[i]))
+				}
+				if i >= len(pw) {
+					fail(fmt.Sprintf("surplus write to %s: %v", node, gw[i]))
+				}
+				if gw[i] != pw[i] {
+					fail(fmt.Sprintf("write %d to %s is %v, expected %v", i, node, gw[i], pw[i]))
+				}
 			}
-			if gc[i] != pc[i] {
-				fail(fmt.Sprintf("write %d is %v, expected %v", i, gc[i], pc[i]))
+		}
+		for node, gw := range gn {
+			if len(pn[node]) == 0 {
+				fail(fmt.Sprintf("unexpected write %v", gw[0]))
 			}
 		}
 		for k, n := range pm {
